@@ -12,6 +12,9 @@ LINK_CONSTS = [
     ("default_min_latency_ms", "crates/turmoil/src/config.rs", r"min_message_latency: Duration::from_millis\((\d+)\)", "N"),
     ("default_max_latency_ms", "crates/turmoil/src/config.rs", r"max_message_latency: Duration::from_millis\((\d+)\)", "N"),
     ("default_fail_rate_x1000", "crates/turmoil/src/config.rs", r"fail_rate: (\d+)\.\d+,\s*repair_rate", "N"),
+    # structure of the state machine: the model's inductives must have the same variants
+    ("link_state_variants", "crates/turmoil/src/top.rs", "State", "enum"),
+    ("delivery_status_variants", "crates/turmoil/src/top.rs", "DeliveryStatus", "enum"),
 ]
 
 HEADER = "From TV.Lib Require Import Base.\nFrom TV.Link Require Import Model.\nOpen Scope N_scope.\n"
@@ -86,7 +89,7 @@ class Spec(PropSpec):
     props_file = "C03.v"
     theorems = ["c03_never_delivered", "c03_inflight_dropped", "c03_state_invariant",
                 "c03_reverse_untouched", "c03_other_links_untouched", "c03_topology_refines_link",
-                "c03_flows_again", "c03_nonvacuous"]
+                "c03_flows_again", "c03_model_matches_enums", "c03_nonvacuous"]
     consts = LINK_CONSTS
     anchors = LINK_ANCHORS
     harness_bins = ["link"]
